@@ -55,7 +55,8 @@ BASE["raise"] = True
 def plan(tier):
     q = tier == "quick"
     return [{"name": "main", "examples": 1500 if q else 40000}, {"name": "preempt", "examples": 700 if q else 30000},
-            {"name": "sustained", "examples": 120 if q else 2000, "shards": 4}]
+            {"name": "sustained", "examples": 120 if q else 2000, "shards": 4},
+            {"name": "startphase", "examples": 400 if q else 8000}]
 
 
 @st.composite
@@ -119,9 +120,39 @@ def _sustained(draw):
             "choices": draw(st.lists(st.integers(0, 5), max_size=20)), "tail": 200 + slow * n}
 
 
+@st.composite
+def _startphase(draw):
+    """The initial macrostep itself is long: an initial leaf raises an event from its entry list and
+    owns an `always` transition whose action sleeps, so start() suspends in the middle of its
+    settle phase with a raised event already waiting (async engine: is the run loop up yet?)."""
+    from ..render import finalize
+
+    case = draw(_case())
+    spec = case["spec"]
+    d = D(draw)
+    tree = Tree(spec)
+    init = tree.initial_config()
+    leaves = sorted(x for x in init if tree[x].kind == "atomic")
+    others = sorted(x for x in tree.nodes if tree[x].kind in ("atomic", "compound") and x not in init and x != tree.root)
+    if leaves and others:
+        L = d.pick(leaves)
+        node = spec["root"]
+        for k in L.split(".")[1:]:
+            node = next(c for c in node["children"] if c["key"] == k)
+        node.setdefault("entry", []).append({"k": "raise", "event": d.pick(gen.RAISED)})
+        tgt = d.pick(others)
+        node["always"] = [{"target": tgt.split(".")[1:], "actions": [{"k": "user", "name": "slow"}]}] + list(node.get("always") or [])
+        if d.chance(50):
+            node.setdefault("after", []).append([d.pick([10, 20]), [{"target": None, "actions": []}]])
+        finalize(spec)
+    return case
+
+
 def strategy(tier, campaign):
     if campaign == "sustained":
         return _sustained()
+    if campaign == "startphase":
+        return _startphase()
     return _case(preempt=(campaign == "preempt"))
 
 
